@@ -110,7 +110,7 @@ Definition skey (t : Z) (v : sval) : list Z :=
        | VNone => []
        | VI x => [x]
        | VH x => [x]
-       | VT x => [if x =? 1 then -1 else x]
+       | VT x => [if x =? 1 then 0 else 1; x]
        | VF b => [fkey32 b]
        | VD b => [fkey64 b]
        | VM m => m
